@@ -131,7 +131,7 @@ def _single_bindings(fn):
         if _enclosing(par, node, fn, (ast.For, ast.While, ast.AsyncFor)):
             continue
         out[k] = (node, value)
-    return out, params, count, par
+    return out, params, count, par, where
 
 
 def _reads(e):
@@ -157,7 +157,7 @@ def _relocated(tree, at):
 def forward_substitute(fn, keep=()):
     new = clone(fn)
     for _ in range(6):
-        binds, params, count, par = _single_bindings(new)
+        binds, params, count, par, where = _single_bindings(new)
         # a binding is usable when everything it reads is never rebound in the function
         usable = {}
         for k, (node, value) in binds.items():
@@ -176,6 +176,9 @@ def forward_substitute(fn, keep=()):
                     continue            # global / builtin / unassigned attribute
                 if r in binds:
                     continue            # bound once, before (checked by position below)
+                if count.get(r, 0) == 1 and where.get(r, (None, None))[0] is not None \
+                        and where[r][0].end_lineno < node.lineno:
+                    continue            # bound once (inside a loop or branch) by a statement that ends before this binding
                 ok = False
             if ok:
                 usable[k] = (node, value)
